@@ -124,8 +124,12 @@ class Session:
             return rng.choice(tags)
         if r < 0.4:
             return rng.choice(["@", "@-", "@-", "@--", "@+"])
+        if r < 0.5 and len(self.ws) == 2:
+            # the other workspace's working-copy commit (a ref on it makes it immutable without giving it a child)
+            return rng.choice(sorted(self.ws)) + "@"
+
         c = rng.choice(vis)
-        if r < 0.5:
+        if r < 0.6:
             return self.d["commits"][c]["change"][:12]
         return c[:16]
 
@@ -172,6 +176,8 @@ class Session:
             table.append((10, "workspace-add", lambda: ["workspace", "add", "../w2", "--name", "w2"] + (["-r", R()] if rng.random() < 0.7 else [])))
         if self.allow_forget and len(self.ws) == 2:
             table.append((2, "workspace-forget", lambda: ["workspace", "forget", rng.choice(["default", "w2"])]))
+        if self.mode == "c42":
+            table = [(w * 2 if k in ("bookmark", "tag", "describe") else w, k, f) for w, k, f in table]
         total = sum(w for w, _, _ in table)
         x = rng.uniform(0, total)
         for w, kind, f in table:
@@ -219,7 +225,7 @@ class Session:
         for n in names:
             if rng.random() < 0.55:
                 self.edit_files(self.ws[n])
-        if self.mode == "c42" and rng.random() < 0.08:
+        if self.mode == "c42" and rng.random() < 0.12:
             self.imm = rng.choice(IMM_SETTINGS)
             self.write_imm()
             self.records.append({"op": "config", "imm": self.imm})
